@@ -507,6 +507,28 @@ def _builtin_types(h, names):
     return out
 
 
+def _write_path_scopes(h, scopes):
+    """the scope passed to get_or_create_variable by the other paths of the language that assign"""
+    sites = [
+        ("for", "yash-semantics/src/command/compound_command/for_loop.rs", r"name\s*\.\s*value\s*\.\s*clone\(\)"),
+        ("switch_assign", "yash-semantics/src/expansion/initial/param/switch.rs", r"&\s*param\s*\.\s*id"),
+        ("arith", "yash-semantics/src/expansion/initial/arith.rs", r"name"),
+        ("read", "yash-builtin/src/read/assigning.rs", r"name\s*\.\s*value\s*\.\s*clone\(\)"),
+        ("getopts", "yash-builtin/src/getopts/report.rs", r"var_name\s*\.\s*value\s*\.\s*clone\(\)"),
+    ]
+    out = []
+    for key, f, arg in sites:
+        src = _strip_comments(h.read(f))
+        src = src.split("#[cfg(test)]")[0]
+        ms = re.findall(r"get_or_create_variable\(\s*" + arg + r"\s*,\s*(?:Scope::)?(\w+)\s*,?\s*\)", src)
+        if len(ms) != 1:
+            h.fail(f"variable: {f}: expected one get_or_create_variable(<the assigned name>, SCOPE) outside the tests, found {ms}")
+        if ms[0] not in scopes:
+            h.fail(f"variable: {f}: Scope::{ms[0]} is not a variant of enum Scope")
+        out.append((key, ms[0]))
+    return out
+
+
 def _builtin_tables(h, scopes):
     resolved, with_g, without_g = _typeset_options(h)
     smap, arms = _set_variables(h)
@@ -549,6 +571,11 @@ def _builtin_tables(h, scopes):
     out.append("/-- yash-builtin/src/lib.rs `BUILTINS`: the type of the built-ins the script leg runs -/")
     out.append("def builtinTypes : List (String × String) := [" +
                ", ".join(f"({_lean_str(n)}, {_lean_str(t)})" for n, t in types) + "]\n")
+    wp = _write_path_scopes(h, scopes)
+    out.append("/-- the scope in which the other assigning paths create the variable: `for` loop, `${n=w}`, "
+               "`$((n=…))`, `read`, `getopts` (`get_or_create_variable(name, SCOPE)`) -/")
+    out.append("def writePathScopes : List (String × String) := [" +
+               ", ".join(f"({_lean_str(k)}, {_lean_str(v)})" for k, v in wp) + "]\n")
     return out
 
 
